@@ -145,6 +145,12 @@ def check_csv_migration(variant='newline_terminated'):
                 if not files.get('settings.yaml', b'').startswith(set0):
                     O.fail('C15.csv_migration.%s.settings_content_lost' % w['event'], w, 'settings.yaml keeps its content', files.get('settings.yaml', b'')[:120])
                 now = classification(b)
+                if now == want:
+                    # still fine now: re-running the command from this interrupted state must not make it worse ("at no point")
+                    again = classification(b, migrate=True)
+                    if again != want:
+                        O.fail('C15.csv_migration.%s.rerun_from_a_working_state_loses_the_rules' % w['event'], w, want, {'now': now, 'after_rerun': again},
+                               'tally up --migrate re-run after the event')
                 if now != want:
                     after = classification(b, migrate=True)
                     if after != want:
